@@ -98,9 +98,21 @@ def check(run, prog, tier):
                 succ_txt = show(strip(l["b"]))
                 amount = show(strip(n["R"]))
                 # same block: cop->delta = <amount>; cop->next = <succ>; <succ slot> = cop
-                txt = [show(e) for e in b.el]
-                has_delta = any(t.endswith("->delta = " + amount) for t in txt)
-                has_next = any("->next = " + succ_txt in t for t in txt)
+                # on every path from here to a return the new entry takes the same amount as its delta and the shortened
+                # entry as its successor, with the amount untouched in between (same block, or behind a `break`)
+                def stores(pred):
+                    return {b2.id for b2, i2, n2 in nco.nodes() if n2.get("k") == "Asg" and n2.get("op") == "=" and pred(n2)}
+                d_blocks = stores(lambda n2: strip(n2["L"]).get("k") == "Mem" and strip(n2["L"]).get("f") == "delta" and show(strip(n2["R"])) == amount)
+                n_blocks = stores(lambda n2: strip(n2["L"]).get("k") == "Mem" and strip(n2["L"]).get("f") == "next" and show(strip(n2["R"])) == succ_txt)
+                dirty = {b2.id for b2, i2, n2 in nco.nodes() if n2.get("k") == "Asg" and show(strip(n2["L"])) == amount and not (b2.id == b.id)}
+                is_exit = lambda blk: nco.exit in blk.live_succ() and not blk.nr
+                def all_paths_pass(blocks):
+                    if b.id in blocks:
+                        return True
+                    return bool(blocks) and nco.reach_avoiding(b.live_succ(), is_exit, avoid_blocks=blocks) is None
+                clean = b.id in d_blocks or nco.reach_avoiding(b.live_succ(), lambda blk: blk.id in dirty, avoid_blocks=d_blocks) is None
+                has_delta = all_paths_pass(d_blocks) and clean
+                has_next = all_paths_pass(n_blocks)
                 guard = any(op == ">=" and show(strip(cl)).endswith("->delta") and show(strip(cr)) == amount
                             for (op, cl, cr) in [atom_of(c, t) for c, t, B in cfgq.guards(nco, b.id)])
                 ins_ok = has_delta and has_next and guard
